@@ -192,4 +192,14 @@ META = {
                 "findings: unbounded decoder recursion, send() pending for ever, uncapped SCRAM iterations.",
         "technique": "catalogue x state exploration with a direct oracle (child processes, bounded stack and time) + the decoder theorems of C04 (partial)",
     },
+    "C05": {
+        "text": "Theorems (Coq, closed): for every well-formed value the encoder model's bytes are accepted by the specification-derived reference decoder as exactly that "
+                "value; every encoding the reference decoder accepts is decoded by the decoder model to the same value under two explicit exclusions (zero-width-element arrays "
+                "whose count exceeds the size field; non-empty arrays of compound elements) and distinct map keys - the unrestricted statement is refuted with witnesses. "
+                "Every run: the real encoder's output and three hand-built variant encodings per generated value go through the extracted reference decoder and the real decoder.",
+        "design_ref": "DESIGN.md section 4, C05",
+        "note": "Trusted: Coq kernel, extraction, our reading of the specification in Codec/Spec.v, the variant encoder. Fixed defect: empty array with element constructor "
+                "mis-decoded. Known finding: c05-zero-width-array-count.",
+        "technique": "Coq proof (round trip against a specification-derived decoder; simulation of it by the decoder model; refutation witnesses) + correspondence on real and variant encodings",
+    },
 }
